@@ -2184,7 +2184,7 @@ def stage_mci_glr(work, tier, seed):
     # the exploration visits every token string up to maxlen: about nterm^maxlen states per
     # table, each a whole GLR frontier.  A budget on that estimate keeps the stage within
     # minutes: curated and structured grammars first, then a seeded sample of the others.
-    budget = 400000 if tier == "quick" else 1000000
+    budget = 400000 if tier == "quick" else 600000
     cand = [c for c in corpus(tier, seed)
             if "meta" not in c[2] and len(c[1]["terms"]) <= (3 if tier == "quick" else 4)
             and tab["nodis"].get("%s|rn" % c[0]) is not None]
@@ -2206,12 +2206,18 @@ def stage_mci_glr(work, tier, seed):
                       "meta": {"nodis": False, "plain": True}})
     pres = run.run_vdrive(work, "mci_glr", cases, shards=4)
     allp = work.path("mci_glr", "all")
+    lifop = work.path("mci_glr", "lifo")
     n = 0
-    with open(allp + ".dumps.ndjson", "w") as f:
+    lifo_budget = 250000
+    with open(allp + ".dumps.ndjson", "w") as f, open(lifop + ".dumps.ndjson", "w") as fl:
         for p in pres:
             for d in run.read_ndjson(p + ".dumps.ndjson"):
                 f.write(json.dumps(d) + "\n")
                 n += 1
+                cost = sum(max(1, d["t"]["nterm"] - 1) ** k for k in range(maxlen + 1))
+                if cost <= lifo_budget:
+                    lifo_budget -= cost
+                    fl.write(json.dumps(d) + "\n")
     r = run.run_tlc(work, "MCI_GLR", "MCI_GLR.cfg",
                     {"DUMPS": allp + ".dumps.ndjson", "MAXLEN": str(maxlen)},
                     workers=run.NCPU, timeout=3000)
@@ -2219,7 +2225,7 @@ def stage_mci_glr(work, tier, seed):
     # must not depend on the processing order (reported as a divergence, never a verdict:
     # the code pops FIFO)
     lifo = run.run_tlc(work, "MCI_GLR", "MCI_GLR_lifo.cfg",
-                       {"DUMPS": allp + ".dumps.ndjson", "MAXLEN": str(maxlen)}, workers=run.NCPU, timeout=3000)
+                       {"DUMPS": lifop + ".dumps.ndjson", "MAXLEN": str(maxlen)}, workers=run.NCPU, timeout=3000)
     return {"verdicts": r["verdicts"], "gtext": gtext, "states": r["distinct"] + lifo["distinct"],
             "transitions": r["states"] + lifo["states"],
             "divergences": ["forest depends on the reducer's pop order (LIFO): %s w=%s" % (v["id"], v["w"])
